@@ -9,24 +9,52 @@ import (
 	sdkmath "cosmossdk.io/math"
 )
 
+// Names of the declared identifications, as counted in the summary.
+const (
+	identNilSlice = "nil-slice==empty-slice"
+	identNilBytes = "nil-bytes==empty-bytes"
+	identNilInt   = "nil-Int==0"
+	identNilDec   = "nil-Dec==0"
+	identTime     = "time-by-instant(location/representation)"
+	identAnyCache = "Any-by-TypeUrl+Value(cached-value-ignored)"
+)
+
+// differ compares two values modulo the declared identifications and records
+// which identifications were actually needed.
+type differ struct {
+	idents map[string]int
+}
+
+func (d *differ) used(name string) {
+	if d.idents == nil {
+		d.idents = map[string]int{}
+	}
+	d.idents[name]++
+}
+
 // equalMod reports whether a and b are equal modulo the declared
 // identifications:
 //   - nil slice == empty slice (also []byte),
 //   - nil sdkmath.Int / LegacyDec == 0,
 //   - time.Time compared by instant (t.Equal),
 //   - codectypes.Any compared by TypeUrl and Value only.
-func equalMod(a, b reflect.Value) bool { return diffMod(a, b, "") == "" }
+func equalMod(a, b reflect.Value) bool { return new(differ).diff(a, b, "") == "" }
 
-// diffMod returns "" if equal, else the path of the first difference.
-func diffMod(a, b reflect.Value, path string) string {
+// diff returns "" if a and b are equal modulo the identifications, else the
+// path of the first difference.
+func (d *differ) diff(a, b reflect.Value, path string) string {
 	if a.Type() != b.Type() {
 		return path + "(type)"
 	}
 	switch a.Type() {
 	case tInt:
 		x, y := a.Interface().(sdkmath.Int), b.Interface().(sdkmath.Int)
+		// NB: x.Equal(y) panics on a nil Int
 		if bigOrZero(x.IsNil(), x.BigInt).Cmp(bigOrZero(y.IsNil(), y.BigInt)) != 0 {
 			return path
+		}
+		if x.IsNil() != y.IsNil() {
+			d.used(identNilInt)
 		}
 		return ""
 	case tDec:
@@ -34,18 +62,33 @@ func diffMod(a, b reflect.Value, path string) string {
 		if bigOrZero(x.IsNil(), x.BigInt).Cmp(bigOrZero(y.IsNil(), y.BigInt)) != 0 {
 			return path
 		}
+		if x.IsNil() != y.IsNil() {
+			d.used(identNilDec)
+		}
 		return ""
 	case tTime:
-		if !a.Interface().(time.Time).Equal(b.Interface().(time.Time)) {
+		x, y := a.Interface().(time.Time), b.Interface().(time.Time)
+		if !x.Equal(y) {
 			return path
+		}
+		if !reflect.DeepEqual(x, y) {
+			d.used(identTime)
 		}
 		return ""
 	case tAny:
 		if a.FieldByName("TypeUrl").String() != b.FieldByName("TypeUrl").String() {
 			return path + ".TypeUrl"
 		}
-		if string(a.FieldByName("Value").Bytes()) != string(b.FieldByName("Value").Bytes()) {
+		av, bv := a.FieldByName("Value"), b.FieldByName("Value")
+		if string(av.Bytes()) != string(bv.Bytes()) {
 			return path + ".Value"
+		}
+		if av.IsNil() != bv.IsNil() {
+			d.used(identNilBytes)
+			// compare the rest with Value normalised
+		}
+		if !anyStrictEqual(a, b) {
+			d.used(identAnyCache)
 		}
 		return ""
 	}
@@ -70,9 +113,16 @@ func diffMod(a, b reflect.Value, path string) string {
 		if a.Len() != b.Len() {
 			return fmt.Sprintf("%s(len %d vs %d)", path, a.Len(), b.Len())
 		}
+		if a.IsNil() != b.IsNil() {
+			if a.Type().Elem().Kind() == reflect.Uint8 {
+				d.used(identNilBytes)
+			} else {
+				d.used(identNilSlice)
+			}
+		}
 		for i := 0; i < a.Len(); i++ {
-			if d := diffMod(a.Index(i), b.Index(i), fmt.Sprintf("%s[%d]", path, i)); d != "" {
-				return d
+			if r := d.diff(a.Index(i), b.Index(i), fmt.Sprintf("%s[%d]", path, i)); r != "" {
+				return r
 			}
 		}
 	case reflect.Ptr:
@@ -80,7 +130,7 @@ func diffMod(a, b reflect.Value, path string) string {
 			return path + "(nil vs non-nil)"
 		}
 		if !a.IsNil() {
-			return diffMod(a.Elem(), b.Elem(), path)
+			return d.diff(a.Elem(), b.Elem(), path)
 		}
 	case reflect.Struct:
 		t := a.Type()
@@ -88,8 +138,8 @@ func diffMod(a, b reflect.Value, path string) string {
 			if !t.Field(i).IsExported() {
 				continue
 			}
-			if d := diffMod(a.Field(i), b.Field(i), path+"."+t.Field(i).Name); d != "" {
-				return d
+			if r := d.diff(a.Field(i), b.Field(i), path+"."+t.Field(i).Name); r != "" {
+				return r
 			}
 		}
 	default:
@@ -99,6 +149,31 @@ func diffMod(a, b reflect.Value, path string) string {
 		}
 	}
 	return ""
+}
+
+// anyStrictEqual: DeepEqual of two Any struct values with the Value field's
+// nil-ness disregarded (that identification is counted separately).
+func anyStrictEqual(a, b reflect.Value) bool {
+	t := a.Type()
+	for i := 0; i < t.NumField(); i++ {
+		if t.Field(i).Name == "Value" {
+			continue
+		}
+		fa, fb := a.Field(i), b.Field(i)
+		if !t.Field(i).IsExported() {
+			// cachedValue (interface) and compat (pointer): equal only if both unset,
+			// or (cachedValue) deeply equal; reflect cannot Interface() these, so
+			// compare nil-ness, which is what distinguishes packed from unpacked.
+			if fa.IsNil() != fb.IsNil() {
+				return false
+			}
+			continue
+		}
+		if !reflect.DeepEqual(fa.Interface(), fb.Interface()) {
+			return false
+		}
+	}
+	return true
 }
 
 func bigOrZero(isNil bool, get func() *big.Int) *big.Int {
